@@ -43,6 +43,13 @@ func genDeliveryScript(r *rand.Rand, kind Kind, half bool, allowBig bool) *Scrip
 	if kind == Unary {
 		s.UnaryReq = mk("c", 0)
 		s.Resp = mk("s", 0)
+		if r.Intn(3) == 0 {
+			// the caller hands in a reply object that still holds an earlier reply; the new reply is often empty
+			s.ReuseDest = true
+			if r.Intn(2) == 0 {
+				s.Resp = &tpb.Message{}
+			}
+		}
 		return s
 	}
 	for i := 0; i < nReq; i++ {
@@ -291,7 +298,13 @@ func checkC01(e *core.Env) {
 
 	runOne := func(c *Carrier, sc *Script) {
 		var plan *hookPlan
-		run, ok, dump := execScript(c, sc, func(run *Run) { plan = yieldingPlan(run, sc) })
+		run, ok, dump := execScript(c, sc, func(run *Run) {
+			plan = yieldingPlan(run, sc)
+			if sc.ReuseDest && sc.Kind == Unary {
+				// a caller that re-uses its reply object: it still holds the previous reply
+				run.Dest = func() *tpb.Message { return fullMessage(rand.New(rand.NewSource(1))) }
+			}
+		})
 		hookPlans.Delete(run.ID)
 		if !ok {
 			hangVerdict(e, "C01", cs, c, sc, run, dump)
